@@ -28,4 +28,6 @@ def run(rep, fb, tier):
     from ..rules import pyrules as _pr5
     _pr5.rule_py_call_shape(rep)
     _pr5.rule_py_dead_attr(rep)
+    _pr5.rule_py_isinstance_shadow(rep)
+    _pr5.rule_py_none_guard(rep)
     rep.units = fb.units + ["src/awkward/operations/convert.py, highlevel.py, _util.py, partition.py (ast)"]
